@@ -707,12 +707,33 @@ class Inliner:
             for cst in m.tree.body:
                 if not isinstance(cst, ast.ClassDef) or f"{m.name}.{cst.name}" in base_classes or any(f"{m.name}.{cst.name}." in bq for bq in base_funcs):
                     continue
-                for st in cst.body:
+                body = list(cst.body)
+                # NAME = (..) ; NAME += (..)  in the class body: one tuple
+                merged = []
+                for st in body:
+                    if isinstance(st, ast.AugAssign) and isinstance(st.op, ast.Add) and isinstance(st.target, ast.Name) and isinstance(st.value, ast.Tuple) and merged \
+                            and isinstance(merged[-1], ast.Assign) and len(merged[-1].targets) == 1 and isinstance(merged[-1].targets[0], ast.Name) \
+                            and merged[-1].targets[0].id == st.target.id and isinstance(merged[-1].value, ast.Tuple):
+                        prev = merged[-1]
+                        merged[-1] = ast.copy_location(ast.Assign(targets=prev.targets, value=ast.Tuple(elts=list(prev.value.elts) + list(st.value.elts), ctx=ast.Load())), prev)
+                        ast.fix_missing_locations(merged[-1])
+                        continue
+                    merged.append(st)
+                stores_in_class = {}
+                for st in body:
+                    for n in ast.walk(st):
+                        if isinstance(n, ast.Name) and isinstance(n.ctx, (ast.Store, ast.Del)) and not isinstance(st, (ast.FunctionDef, ast.AsyncFunctionDef, ast.ClassDef)):
+                            stores_in_class[n.id] = stores_in_class.get(n.id, 0) + 1
+                for st in merged:
                     if isinstance(st, ast.Assign) and len(st.targets) == 1 and isinstance(st.targets[0], ast.Name) and isinstance(st.value, (ast.Dict, ast.Tuple)):
                         nm = st.targets[0].id
+                        n_merged = sum(1 for x in merged if isinstance(x, ast.Assign) and any(isinstance(t, ast.Name) and t.id == nm for t in x.targets))
+                        n_aug = sum(1 for x in merged if isinstance(x, ast.AugAssign) and isinstance(x.target, ast.Name) and x.target.id == nm)
+                        if n_merged != 1 or n_aug:
+                            continue
                         attr_stores = any(isinstance(n, ast.Attribute) and n.attr == nm and isinstance(n.ctx, (ast.Store, ast.Del)) for m2 in project.modules.values() for n in ast.walk(m2.tree))
                         vals = st.value.values if isinstance(st.value, ast.Dict) else st.value.elts
-                        if not attr_stores and never_mutated(project, nm) and all(isinstance(v, ast.Lambda) or is_const_expr(v) for v in vals) \
+                        if not attr_stores and (isinstance(st.value, ast.Tuple) or never_mutated(project, nm)) and all(isinstance(v, ast.Lambda) or is_const_expr(v) for v in vals) \
                                 and (not isinstance(st.value, ast.Dict) or all(k is not None and is_const_expr(k) for k in st.value.keys)) \
                                 and not any(isinstance(x, ast.Name) and isinstance(x.ctx, ast.Load) and x.id not in {a.arg for l in ast.walk(st.value) if isinstance(l, ast.Lambda) for a in ast.walk(l.args) if isinstance(a, ast.arg)} for x in ast.walk(st.value)):
                             self.new_consts[f"{m.name}.{cst.name}.{nm}"] = st.value
@@ -745,7 +766,7 @@ class Inliner:
     @staticmethod
     def inlinable_decl(fi) -> bool:
         fn = fi.node
-        if isinstance(fn, ast.AsyncFunctionDef) or fn.decorator_list and not all(isinstance(d, ast.Name) and d.id == "staticmethod" for d in fn.decorator_list):
+        if isinstance(fn, ast.AsyncFunctionDef) or fn.decorator_list and not all(isinstance(d, ast.Name) and d.id in ("staticmethod", "classmethod") for d in fn.decorator_list):
             return False
         if contains(ast.Module(body=fn.body, type_ignores=[]), (ast.Yield, ast.YieldFrom, ast.Await, ast.Global, ast.Nonlocal)):
             return False
